@@ -877,7 +877,11 @@ func AwkwardTypeValues() []interface{} {
 		}{},
 		typeBox[tagged]{},
 		typeBox[map[string][]*tagged]{},
-		struct{ Inner struct{ X int "a\\b" } }{},
+		struct {
+			Inner struct {
+				X int "a\\b"
+			}
+		}{},
 		someStruct{}, 1, nil, // the plain ones for comparison
 	}
 }
